@@ -275,7 +275,8 @@ def gen_custom(ch, code, bias):
     """Parameters of a user-defined street list (kept as data; built by custom_streets)."""
     c = {}
     c['structure'] = ch.choice('cfg.x.structure', ('NL', 'PL', 'FL'))
-    c['cap'] = ch.choice('cfg.x.cap', (None, 4, 3, 1, 2)) if c['structure'] != 'FL' else ch.choice('cfg.x.capfl', (4, 3, 1, 2, None))
+    # cap 0 is legal (a street on which nobody may bet or raise) and is not the same as "no cap" (None)
+    c['cap'] = ch.choice('cfg.x.cap', (None, 4, 3, 1, 2, 0)) if c['structure'] != 'FL' else ch.choice('cfg.x.capfl', (4, 3, 1, 2, None, 0))
     if code == 'XHE':
         c['hole'] = 2 + ch.pick('cfg.x.hole', 2)
         c['partition'] = ch.choice('cfg.x.partition', ([3, 1, 1], [5], [3, 2], [2, 2, 1], [1, 1, 1, 1, 1], [4, 1]))
